@@ -106,6 +106,14 @@ Proof.
   destruct (@exists_last _ (a :: l)) as [l' [x E]]; [discriminate|]. exists l', x. exact E.
 Qed.
 
+(* case split on every integer equality test left in the goal (robust against the way the Python
+   writes the test: operand order, == vs swapped ==) *)
+Ltac split_eqb :=
+  repeat match goal with
+         | |- context[?a =? ?b] =>
+             let E := fresh "E" in destruct (a =? b) eqn:E; [apply Z.eqb_eq in E | apply Z.eqb_neq in E]
+         end.
+
 (* state of the generated fold = (new_temporal_strides, new_upper_bounds); abstraction = combine ubs tss *)
 Definition st_ok (tss ubs : list Z) (acc : list (Z * Z)) : Prop :=
   length tss = length ubs /\ combine ubs tss = acc.
@@ -136,7 +144,7 @@ Proof.
     rewrite combine_snoc by lia. rewrite rev_app_distr. cbn [rev app].
     replace (negb (Z.of_nat (length (ubs' ++ [xb])) =? 0)) with true
       by (rewrite app_length; simpl; symmetry; apply negb_true_iff; lia).
-    rewrite !list_last_snoc. destruct (xb * xs =? ts) eqn:Em.
+    rewrite !list_last_snoc. split_eqb; try (exfalso; lia).
     - rewrite list_set_last_snoc. eexists _, _. split; [reflexivity|].
       split; [rewrite !app_length; simpl; lia|]. rewrite combine_snoc by lia. rewrite rev_involutive. reflexivity.
     - eexists _, _. split; [reflexivity|]. split; [rewrite !app_length; simpl; lia|].
@@ -185,7 +193,7 @@ Proof.
     { rewrite app_length in Hl. simpl in Hl. lia. }
     replace (negb (Z.of_nat (length (ubs' ++ [xb])) =? 0)) with true
       by (rewrite app_length; simpl; symmetry; apply negb_true_iff; lia).
-    rewrite !list_last_snoc. destruct (xb * xs =? ts).
+    rewrite !list_last_snoc. split_eqb; try (exfalso; lia).
     - rewrite list_set_last_snoc. eexists _, _. split; [reflexivity|]. rewrite !app_length in *; simpl in *; lia.
     - eexists _, _. split; [reflexivity|]. rewrite !app_length in *; simpl in *; lia. }
   clearbody step.
